@@ -77,7 +77,7 @@ func catCollInfo(w *CatWrite) *pb.CollectionInfo {
 	info := &pb.CollectionInfo{ID: w.Coll, DbId: w.DB, CreateTime: w.Ts, State: pb.CollectionState(w.State), ShardsNum: int32(w.Shard),
 		Schema: &schemapb.CollectionSchema{Name: w.Name, Description: "src"}, ConsistencyLevel: commonpb.ConsistencyLevel_Bounded}
 	for i := 0; i < w.Shard; i++ {
-		p := fmt.Sprintf("by-dev-rootcoord-dml_%d", i)
+		p := srcPCh(i)
 		info.PhysicalChannelNames = append(info.PhysicalChannelNames, p)
 		info.VirtualChannelNames = append(info.VirtualChannelNames, vchan(p, w.Coll, i))
 		ss := 0
